@@ -159,7 +159,8 @@ def native_storage():
             ws = wb.add_worksheet()
             for y, row in enumerate(rows):
                 for x, c in enumerate(row):
-                    ws.write_string(y, x, c)
+                    if c != "":
+                        ws.write_string(y, x, c)  # (a spreadsheet does not store empty cells)
             wb.close()
             paths["xlsx"] = p
             return paths
@@ -223,6 +224,19 @@ def native_storage():
                 pv[kind] = "%s: %s" % (type(e).__name__, e)
         if not (pv["csv"] == pv["ods"] == pv["xlsx"] == people[1:]):
             failures.append(dict(key="data-storage-annotation", what="a table with a commented ODS cell is read as %r" % (pv,), args={}))
+        # rows that end in empty cells (a spreadsheet does not store them), the first row included
+        n += 1
+        sparse = [["1", "a", ""], ["2", "b", "x"], ["3", "", ""], ["", "", ""], ["5", "e", "y"], ["6", "toolong", ""]]
+        spp = store(sparse, "sparse", dict(column_runs=True))
+        sv = {}
+        for kind, fmt in (("csv", "delimited"), ("ods", "ods"), ("xlsx", "excel")):
+            cid = interface.create_cid_from_string("d,format,%s\nf,id,,,,Integer\nf,name,,X,...3\nf,mark,,X,,Choice,\"x,y\"\n" % fmt)
+            try:
+                sv[kind] = ["error" if isinstance(r, errors.DataError) else r for r in validio.rows(cid, spp[kind], on_error="yield")]
+            except Exception as e:  # noqa
+                sv[kind] = "%s: %s" % (type(e).__name__, e)
+        if not (sv["csv"] == sv["ods"] == sv["xlsx"]) or sv["csv"][:3] != sparse[:3]:
+            failures.append(dict(key="data-storage-trailing-empty-cells", what="a table whose rows end in empty cells is read as %r" % (sv,), args={}))
         # cells with carriage returns, consecutive blanks and tabs: the same values whatever the container
         special = [["k", "text"], ["1", "a\r\nb"], ["2", "Dr.   Who"], ["3", "tab\there"], ["4", "x\ry"]]
         spaths = store(special, "special", dict(ws_elements=True, span_at=2))
